@@ -146,9 +146,12 @@ def bibtexWidth (w : Char → Int) (s : Str) : Option Int :=
 
 /-! ### `_find_closing_brace` and `split_tex_string` -/
 
-/-- `acc` = text consumed up to and including the last brace seen, `pending` = text since. -/
+/-- `acc` = text consumed up to and including the last brace seen, `pending` = text since.
+(After the repair proposed_fixes/C12-1: when the string ends before the group is closed, the
+whole rest belongs to the group; before, the text after the last brace was handed back to the
+caller — and split at brace level 0 — whenever the unclosed group contained a brace.) -/
 def fcbAux : Nat → Str → Str → Str → Str × Str
-  | _, acc, pending, [] => if acc = [] then (pending, []) else (acc, pending)
+  | _, acc, pending, [] => (acc ++ pending, [])
   | level, acc, pending, c :: r =>
     if c = '{' then fcbAux (level + 1) (acc ++ pending ++ [c]) [] r
     else if c = '}' then
